@@ -96,6 +96,16 @@ def sharp3(rng):
             "total_mode": "given", "noise_seed": rng.randrange(10 ** 6)}
 
 
+def shared_query(rng):
+    """Two attributes of equal size measured with the SAME identity matrix object, with answers that differ a lot."""
+    cells = [(i, j) for i in range(4) for j in range(4)]
+    priv = [[min(3, rng.randrange(5)), 3 - min(3, rng.randrange(6))] for _ in range(200)]
+    pub = [list(rng.choice(cells)) for _ in range(rng.randint(6, 12))]
+    return {"attrs": ["a", "b"], "sizes": [4, 4], "public": pub, "private": priv,
+            "meas": [{"proj": ["a"], "kind": "identity", "noise": 1.0}, {"proj": ["b"], "kind": "identity", "noise": 1.0}],
+            "total_mode": "given", "noise_seed": rng.randrange(10 ** 6), "share_Q": True}
+
+
 # a fixed instance of finding F19 (2 identical single-cell records, 2*I at noise 0.5 answering 6, a stacked identity answering 5, 5)
 KNOWN_DEGENERATE = {"attrs": ["a", "b"], "sizes": [1, 1], "public": [[0, 0]] * 2, "private": [[0, 0]] * 5,
                     "meas": [{"proj": ["a"], "kind": "twice", "noise": 0.5, "y": [6.0]}, {"proj": ["b"], "kind": "stack", "noise": 1.0, "y": [5.0, 5.0]}],
@@ -143,6 +153,8 @@ def build(sc):
             y = np.array(m["y"], dtype=float)
         if sc["total_mode"] == "estimated_negative":
             y = y - (x.sum() + 3.0) / max(1, x.size) * np.abs(Q).sum(axis=1)      # noisy answers whose implied total is below zero
+        if sc.get("share_Q") and meas and meas[0][0].shape == Q.shape and np.array_equal(meas[0][0], Q):
+            Q = meas[0][0]           # the caller re-uses ONE matrix object for measurements of different cliques
         meas.append((Q, y, m["noise"], tuple(m["proj"])))
     total = {"given": float(len(sc["private"])), "estimated": None, "other": 7.5, "estimated_negative": None,
              "explicit": sc.get("total")}[sc["total_mode"]]
@@ -245,7 +257,7 @@ def run(ctx, canary=False):
         ctx.violation("design-level: %s violated in PublicMD.tla" % r.violated, {"tlc": r.trace_text()}, {"kind": "design"})
     traces = []
     stats = {"negative_rhs_steps": 0, "accepted_increase": 0, "runs": 0}
-    scs = [scenario(rng) for _ in range(900 if thorough else 110)] + [precise_vs_imprecise(rng) for _ in range(60 if thorough else 8)] + [big_prefix(rng) for _ in range(20 if thorough else 4)] + [degenerate(rng) for _ in range(30 if thorough else 6)] + [KNOWN_DEGENERATE] + [sharp(rng) for _ in range(60 if thorough else 6)] + [sharp3(rng) for _ in range(400 if thorough else 120)]
+    scs = [scenario(rng) for _ in range(900 if thorough else 110)] + [precise_vs_imprecise(rng) for _ in range(60 if thorough else 8)] + [big_prefix(rng) for _ in range(20 if thorough else 4)] + [degenerate(rng) for _ in range(30 if thorough else 6)] + [KNOWN_DEGENERATE] + [shared_query(rng) for _ in range(40 if thorough else 8)] + [sharp(rng) for _ in range(60 if thorough else 6)] + [sharp3(rng) for _ in range(400 if thorough else 120)]
     import multiprocessing
     with multiprocessing.get_context("fork").Pool(16) as pool:
         outs = pool.map(one_run, scs, chunksize=2)
